@@ -117,7 +117,10 @@ CHECKS["C14"] = dict(
          "never objects (no getdata while the body is held, no second getdata within the 3 s window to any peer, an "
          "announced unheld tx without active request is requested, a tracking connection re-requests at its next check "
          "after the window expired, confirmed txs are forgotten by every tracker). Correspondence runs a real Node and "
-         "real UntrustedNode objects (real handleMessage / check / CleanupBlock) on the same interleavings.",
+         "real UntrustedNode objects (real handleMessage / check / CleanupBlock) on the same interleavings; the set-up of "
+         "untrusted connections (monitorUntrustedNodes: dial, list, drop) is modelled in Shutdown.v and run on the real "
+         "Run loop against scripted loopback peers (slow dial across a monitor pass): every connected peer is listed and "
+         "none is asked for a tx a processed block confirmed (codes 913 / 914).",
     note="Trusted: Coq kernel; models Tracker.v/MemPool.v validated by correspondence; steps atomic under the mempool / "
          "tracker mutexes; 'next activity' is a runtime liveness; bodies have >= 1 input.",
     technique="Coq invariant proof + model/implementation correspondence + trace monitor",
@@ -252,10 +255,13 @@ CHECKS["C19"] = dict(
          "the real Node.Run against a scripted loopback wire peer: stop while connecting / handshaking / header sync / "
          "mid block / in sync with traffic / after close, reset, silence / during reconnect / consumer abort with a full "
          "channel; observations: Stop returned within the bound, no callback afterwards, stored = told, announced "
-         "heights contiguous without repeats.",
-    note="Trusted: Coq kernel; hand-written Shutdown.v validated by correspondence on real Node.Run (scenario schedules; "
-         "25 quick / 301 thorough); Go scheduler, TCP and timers are not in the model; untrusted peers are covered by the "
-         "proofs only (harness runs with UntrustedCount = 0); D27 (a goroutine unscheduled for > 100 ms escapes the count) "
+         "heights contiguous without repeats. The untrusted-peer monitor is a second transition system (lock, list, scan "
+         "window, dialling / active / done nodes) with its own termination, lock-free-at-stop and listed-while-running "
+         "theorems and two refutation witnesses; the real monitor runs against scripted untrusted loopback peers (stop "
+         "inside the scan window, slow dial, drop and replace).",
+    note="Trusted: Coq kernel; hand-written Shutdown.v validated by correspondence on real Node.Run (scenario schedules); "
+         "Go scheduler, TCP and timers are not in the model; a Stop during a hanging untrusted dial returns only after the "
+         "15 s dial time-out (bounded; scenarios do not call Stop inside an unreleased dial); D27 (a goroutine unscheduled for > 100 ms escapes the count) "
          "is a fairness hypothesis, not replayable without a scheduler hook.",
     technique="Coq invariant + ranking proofs over a concurrent transition system (all interleavings) + refutation witness for the pre-fix code + scenario correspondence on the real Run loop + trace monitor",
     ref="5/C19 and 11")
